@@ -104,6 +104,17 @@ def clocks(F, rep):
                         if any(isinstance(x, tuple) and x and x[0] == "call" and CLOCK.search(x[1]) for x in subterms(term)) \
                                 or _flows_through_format(F, b, tb, a):
                             reached = True
+                # …or it is an element of a collection that is mapped, element by element, through the comment formatter
+                # (`notes.into_iter().flatten().map(|note| format_comment(&note))`)
+                if not reached and parse_callee(u["callee"])[2] in ("map", "for_each", "flat_map") and len(u["args"]) >= 2:
+                    clo = tb.operand(u["args"][1])
+                    if isinstance(clo, tuple) and clo and clo[0] == "closure" and clo[1] in F.bodies:
+                        cb = F.bodies[clo[1]]
+                        ct = Terms(F, cb, inline_depth=0)
+                        wraps = any(w["callee"] in cf and any(isinstance(z, tuple) and z and z[0] == "param" and z[1] >= 1
+                                                              for a2 in w["args"] for z in subterms(ct.operand(a2))) for _, w in cb.calls())
+                        if wraps and any(isinstance(x, tuple) and x and x[0] == "call" and CLOCK.search(x[1]) for x in subterms(tb.operand(u["args"][0]))):
+                            reached = True
             rep.ob("R2", inst, reached,
                    "clock value reaches only a comment-line formatter" if reached else
                    "clock read in the converter does not flow into a comment line", site,
